@@ -149,36 +149,18 @@ func runC17(c *core.Ctx) {
 	c.Clause("C17.prune", func() {
 		sc := c17RequestScope(c)
 		// lookup of the requested session: session, ok := s.sessions[key]
-		var lf *c17Frame
-		var okVar *types.Var
-		var lookupPt core.Point
-		for _, fr := range sc.Frames {
-			for _, a := range fr.Assignments() {
-				as, isAs := a.Stmt.(*ast.AssignStmt)
-				if !isAs || len(as.Lhs) != 2 || len(as.Rhs) != 1 || !c17IndexOfField(fr.F, as.Rhs[0], sessionsF) {
-					continue
-				}
-				lf, okVar, lookupPt = fr, varOf(fr.F, as.Lhs[1]), a.Pt
-			}
-		}
-		c.Need(lf != nil && okVar != nil, "comma-ok lookup of the requested session in the request handler")
-		c.Need(len(assignsToVar(lf.F, okVar)) == 1 && lf.In(okVar.Pos()), "the found-flag of the lookup is a variable of the handler defined by the lookup only")
-		notFound := func(g *core.FuncInfo) func(core.Fact) bool {
-			return func(ft core.Fact) bool {
-				e, truth, ok := c17BoolFact(g.Info(), ft)
-				return ok && !truth && varOf(g, e) == okVar
-			}
-		}
+		lf, okVar, lookupPt := c17SessionLookup(c, sc, sessionsF)
+		notFound := c17NotFound(okVar)
 		// a fact about the flag speaks about this handler run's lookup: the site comes after it
 		afterLookup := func(fr *c17Frame, pt core.Point) bool { return fr != lf || fr.reaches(lookupPt, pt) }
-		n := 0
+		nDel, nShort := 0, 0
 		// deletes from the session table inside the request handler
 		for _, fr := range sc.Frames {
 			for _, cs := range fr.Calls() {
 				if cs.Name != "builtin.delete" || len(cs.Call.Args) != 2 || fieldNameOf(fr.F, cs.Call.Args[0]) != sessionsF {
 					continue
 				}
-				n++
+				nDel++
 				ok, why := sc.Guarded(fr, cs.Pt, notFound, false)
 				c.Check(ok && afterLookup(fr, cs.Pt), "readerLoop|session evicted only when a new one is created", "T4 GuardedBy", cs.Pos(),
 					"delete(sessions, other) is reached only on the edge where the requested session was not found",
@@ -221,7 +203,7 @@ func runC17(c *core.Ctx) {
 				}
 				// shortening of the list
 				if _, isSlice := ast.Unparen(a.RHS).(*ast.SliceExpr); isSlice {
-					n++
+					nShort++
 					ok, why := sc.Guarded(fr, a.Pt, notFound, false)
 					c.Check(ok && afterLookup(fr, a.Pt), "readerLoop|session list shortened only when a new one is created", "T4 GuardedBy", a.Stmt.Pos(),
 						"the peer's list is resliced only on the not-found edge", "the peer's session list is shortened by a request that resumes an existing session: "+why)
@@ -231,8 +213,12 @@ func runC17(c *core.Ctx) {
 				c.Check(ok, "readerLoop|changed session list is stored back", "T7 Pairing", a.Stmt.Pos(), "every path from this change of the list to the end of the handler stores it into peerSessions", "the peer's list is changed but not stored (list and table drift apart): "+why)
 			}
 		}
-		c.ExpectAtLeast("eviction sites in the request case", n, 2)
+		// vacuity only: one instance of each role (table eviction, list shortening)
+		c.ExpectAtLeast("evictions from the session table in the request case", nDel, 1)
+		c.ExpectAtLeast("shortenings of the peer's session list in the request case", nShort, 1)
 	})
+
+	c17SenderClause(c, sessionsF, sends)
 
 	c.Clause("C17.maps", func() {
 		sc := c17RequestScope(c)
